@@ -1432,17 +1432,24 @@ impl<'a> Parser<'a> {
         // Look ahead to find comma before the matching ParenEnd. The scan is not capped at
         // MAX_LOOKAHEAD: a tuple whose first element is longer than that many tokens is still a tuple.
         // It stops at the matching ParenEnd or at the end of the token stream.
-        let mut depth = 0;
+        // Only a comma that belongs to these parentheses makes a tuple: commas nested in any kind of
+        // brackets (`(f([a, b]))`, `(if (c) { {x = 1, y = 2}.x } else { 0 })`) or in the parameter list
+        // of a lambda (`(|a, b| a + b)`) separate something else.
+        let mut depth = 0usize;
+        let mut in_lambda_params = false;
         for i in 1.. {
             match self.peek_ahead(i) {
-                Some(TokenKind::ParenBegin) => depth += 1,
-                Some(TokenKind::ParenEnd) => {
-                    if depth == 0 {
-                        return false; // no comma found
-                    }
-                    depth -= 1;
+                Some(TokenKind::ParenBegin | TokenKind::BlockBegin | TokenKind::ArrayBegin) => {
+                    depth += 1
                 }
-                Some(TokenKind::Comma) if depth == 0 => return true,
+                Some(TokenKind::ParenEnd) if depth == 0 => return false, // no comma found
+                Some(TokenKind::ParenEnd | TokenKind::BlockEnd | TokenKind::ArrayEnd) => {
+                    depth = depth.saturating_sub(1)
+                }
+                Some(TokenKind::LambdaArgBeginEnd) if depth == 0 => {
+                    in_lambda_params = !in_lambda_params
+                }
+                Some(TokenKind::Comma) if depth == 0 && !in_lambda_params => return true,
                 None => return false,
                 _ => {}
             }
